@@ -1,11 +1,12 @@
 import FedjaxVerif.Model.Proto
 import FedjaxVerif.Handlers.C03
 import FedjaxVerif.Handlers.C02
+import FedjaxVerif.Handlers.C01
 
 open FedjaxVerif
 
 def handlers : List (String → List Val → Option Val) :=
-  [Handlers.C03.handle, Handlers.C02.handle]
+  [Handlers.C03.handle, Handlers.C02.handle, Handlers.C01.handle]
 
 def answer (line : String) : String :=
   match parseLine line with
